@@ -7,8 +7,16 @@
    on its own; a final line break makes no difference; characters inside
    string literals and comments do not count.  That -eval, the REPL and file
    mode then compute the same values and output is decided on the built
-   binary by the check. *)
+   binary by the check; for the statement language over globals
+   (assignments, blocks, if, if/else, while; StmtTop.v) it is proved on the
+   compiler and VM models that the two compilation modes — ByteCode with
+   Run(true) as the REPL and -eval use, ByteCodeNoStck with Run(false) as
+   file mode uses — leave the same global bindings and the same stack
+   ([C16_modes_bind_the_same_globals]). *)
 Require Import Calc.Base Calc.Repl Calc.ReplProofs.
+Require Import Calc.Bytecode Calc.Value Calc.Ast Calc.Compile Calc.VM Calc.Session
+        Calc.ExprSem Calc.ExprVM Calc.ExprCorrect Calc.ExprTop Calc.ExprAssign Calc.ExprSession
+        Calc.StmtSem Calc.StmtCorrect Calc.StmtTop.
 Open Scope Z_scope.
 
 Theorem C16_script_runs_statement_by_statement : forall stmts : list (list string),
@@ -48,3 +56,24 @@ Example C16_nonvacuous :
   loop_model (List.concat stmts) = ["x = 1"; "f = (a) -> { ; note }" +++ sb [10] +++ "write(""}"")" +++ sb [10] +++ "a" +++ sb [10] +++ "}";
                                     "l = [1," +++ sb [10] +++ "2]"; "s = ""ab" +++ sb [10] +++ "c{"""].
 Proof. split; vm_compute; reflexivity. Qed.
+
+(* value mode and file mode of one statement, started from the same machine *)
+Theorem C16_modes_bind_the_same_globals : forall t s s1 s2 v c m n G' x,
+  wstmt t = true -> wfcs s -> idle v s c m ->
+  ByteCode t s = CompOk s1 -> ByteCodeNoStck t s = CompOk s2 ->
+  ssem n (v_globals v) t = Some (G', Ok x) ->
+  exists k, forall fuel, (k < fuel)%nat ->
+    v_globals (fst (Run fuel (load_code v s1) true)) = G' /\
+    v_globals (fst (Run fuel (load_code v s2) false)) = G' /\
+    snd (Run fuel (load_code v s1) true) = RValue x /\
+    snd (Run fuel (load_code v s2) false) = RValue VNil.
+Proof.
+  intros t s s1 s2 v c m n G' x Hw Hwf Hid HB1 HB2 HM.
+  destruct (bytecode_run_stmt t s s1 v c m n G' (Ok x) Hw Hwf Hid HB1 HM) as [_ [k1 R1]].
+  destruct (bytecode_nostck_run_stmt t s s2 v c m n G' (Ok x) Hw Hwf Hid HB2 HM) as [_ [k2 R2]].
+  exists (Nat.max k1 k2). intros fuel Hf.
+  destruct (R1 fuel) as [_ R1']. specialize (R1' ltac:(lia)). specialize (R2 fuel ltac:(lia)).
+  destruct R1' as [v1 [m1 (E1 & _ & _ & _ & G1 & _)]]. destruct R2 as [v2 [m2 (E2 & _ & _ & _ & G2 & _)]].
+  rewrite E1, E2. cbn [fst snd]. repeat split; assumption.
+Qed.
+Print Assumptions C16_modes_bind_the_same_globals.
